@@ -33,6 +33,18 @@ def run(sc, tier, seed):
     val3 = V.validate_traces(sc, "Topics", "TopicsTraceMC.tla", "TopicsTrace.cfg", meta3["trace_files"])
     R.states += val3["states"]
     R.handle_validation(val3)
+    # free-running publisher rounds (no gates): TLC searches for an explaining interleaving
+    out5, meta5 = V.run_driver(sc, "c09free", tier, seed)
+    R.add_meta(meta5)
+    val5 = V.validate_traces(sc, "Topics", "TopicsTraceMC.tla", "TopicsFreeTrace.cfg", meta5["trace_files"])
+    R.states += val5["states"]
+    R.handle_validation(val5)
+    # handler registry across rename / CloseTopic / restore on a persisting service
+    out6, meta6 = V.run_driver(sc, "c09restore", tier, seed)
+    R.add_meta(meta6)
+    val6 = V.validate_traces(sc, "Topics", "TopicsTraceMC.tla", "TopicsTrace.cfg", meta6["trace_files"], parallel=2)
+    R.states += val6["states"]
+    R.handle_validation(val6)
     # aggregate handlers: design level (AggTick) and timer-driven real runs; TLC chooses the grouping
     R.add_model(V.model_check(sc, "Topics", "TopicsMC.tla", "Topics_agg.cfg", workers=8, timeout=1500))
     out4, meta4 = V.run_driver(sc, "c09agg", tier, seed)
